@@ -123,6 +123,14 @@ def prog_C03(ctx):
              'modelled, not verified: encoding/json of []SigningTask (SrcPayload) - exercised by fsmdiff and nodediff'],
             'random mixed batches: explicit payloads (any bytes, empty-non-nil, names with spaces/unicode/html characters, duplicate ids) and baked ranges (inside, across the end, empty, negative)',
             op_filter=lambda op: op.startswith('tasks') or op.startswith('baked'), cov_from_stats=cov)
+    # end to end on real ceremonies: what each machine signs (its partial signatures on the board, checked with tbls.Verify over the
+    # proposal's payload), what every node stores and broadcasts next to the final signature (algdiff's C03 monitors); batches incl.
+    # a crafted one with a repeated identifier, a range and an explicit task named like one of the range's validators
+    ev = ctx.cov.get('evaluations', 0)
+    al = monitor_only(ctx, 'algdiff', ['C03'], 'end_to_end_ceremonies')
+    if al:
+        ctx.cov['evaluations'] = ev + al.get('PartialsChecked', 0) + al.get('SignaturesChecked', 0)
+    ctx.cov['trusted_base'] = ctx.cov.get('trusted_base', []) + ['monitors algdiff (C03 signed_eq_proposed, stored_payload, foreign_message): kyber tbls.Verify and the spec signing root computed by the harness are the oracle']
 
 
 def fsm_part(ctx, monitor_prefixes, event_prefixes):
